@@ -84,7 +84,13 @@ func substituteEscapes(s string) (out string, undefined bool) {
 		case '\\':
 			b.WriteByte('\\')
 		default:
-			undefined = true
+			// only the four escapes are substituted: any other character behind a backslash leaves both
+			// where they are.  (Not asserted next to layout: a backslash before a blank or a line break.)
+			// Not asserted either: \r, which the implementation reads as a carriage return (RFC 6020 names
+			// four escapes and is silent on the rest; YANG 1.1 forbids the rest).
+			if c := s[i+1]; c == ' ' || c == '\t' || c == '\n' || c == '\r' || c == 'r' {
+				undefined = true
+			}
 			b.WriteByte('\\')
 			b.WriteByte(s[i+1])
 		}
